@@ -52,6 +52,15 @@ class Ctx:
         self.path.explorer.obligations[-1].env = self.env
         self.path.explorer.obligations[-1].case = self.case
 
+    def induct(self, label, P, n, lo=0):
+        """Induction lemma: obliges P(lo) and P(j) => P(j+1) for lo <= j < n, then assumes
+        forall lo <= j <= n. P(j).  (The induction principle itself is the meta-level step.)"""
+        j = z3.Int(fresh_name("ind_j"))
+        lo_z = lo if z3.is_expr(lo) else z3.IntVal(lo)
+        self.oblige(f"{label}:base", P(lo_z), kind="lemma")
+        self.oblige(f"{label}:step", z3.Implies(z3.And(j >= lo_z, j < n, P(j)), P(j + 1)), kind="lemma")
+        self.assume(z3.ForAll([j], z3.Implies(z3.And(j >= lo_z, j <= n), P(j))))
+
     def finding_open(self, fid):
         """True when known_findings.json lists `fid` as an open finding: the contract then splits
         the affected obligation into the known failing input class and everything else."""
